@@ -80,6 +80,18 @@ fn ordered_kind(v: &Value) -> Option<&'static str> {
     Value::Number(_) => Some("number"),
     Value::String(_) => Some("string"),
     Value::Date(_) => Some("date"),
+    Value::DaysAndTimeDuration(_) => Some("days and time duration"),
+    Value::YearsAndMonthsDuration(_) => Some("years and months duration"),
+    // times and date-times are ordered when they have a position on the UTC line (C15: beyond chrono's
+    // range they have none and every comparison is null)
+    Value::Time(_) | Value::DateTime(_) => {
+      let has_key = crate::vals::value_sexp(v).map(|s| !s.to_string().ends_with("none)")).unwrap_or(false);
+      match (has_key, v) {
+        (true, Value::Time(_)) => Some("time"),
+        (true, _) => Some("date and time"),
+        _ => None,
+      }
+    }
     _ => None,
   }
 }
